@@ -13,6 +13,12 @@ Theorem C01_hard_prediction_is_leaf_formula :
 Proof. exact @predict_tree_hard_spec. Qed.
 Print Assumptions C01_hard_prediction_is_leaf_formula.
 
+(* the code's traversal is iterative (explicit LIFO stack, right child pushed first): it computes the recursive left-first grouping *)
+Theorem C01_iterative_traversal_is_the_recursive_grouping : forall (L : Type) (T : tree L) (rows : list (nat * list Q)),
+  groups_iter T rows = Some (groups T rows).
+Proof. exact @groups_iter_spec. Qed.
+Print Assumptions C01_iterative_traversal_is_the_recursive_grouping.
+
 (* instantiated with the documented leaf predictor sum_i alpha_i K(x, c_i), for an arbitrary kernel K *)
 Theorem C01_kernel_expansion_of_the_leaf_reached :
   forall (K : list Q -> list Q -> Q) (nout bs : nat) (T : tree (list (list Q * list Q))) (X : list (list Q)),
